@@ -4985,7 +4985,8 @@ func (t *Terminal) Loop() error {
 					}
 				}
 
-				if onFocus, prs := t.keymap[tui.Focus.AsEvent()]; prs && iter < maxFocusEvents {
+				// Nothing runs after a terminal action
+				if onFocus, prs := t.keymap[tui.Focus.AsEvent()]; prs && looping && iter < maxFocusEvents {
 					if newIndex := t.currentIndex(); newIndex != currentIndex {
 						t.lastFocus = newIndex
 						if t.infoCommand != "" {
